@@ -1,3 +1,48 @@
+/-
+  C13 — Concurrent loading is schedule-independent (model level: the loader state machine of
+  `Cctz.Loader` at the granularity of its critical sections; any number of threads, any schedule).
+  Not a theorem: freedom from data races in the C++ memory model (supported by ThreadSanitizer runs
+  and by the structural facts recorded in DESIGN.md).  That const queries return the stateless
+  answer whatever hint value they read is `Cctz.C14.breakTime_hint_irrelevant` / `makeTime_…`.
+-/
 import Cctz.Model.Loader
+import Cctz.Proofs.LoaderInv
+
 namespace Cctz.C13
+open Cctz Cctz.Loader
+
+/-- the state reached from the start by a schedule (a list of thread indices; each occurrence lets
+that thread take one atomic step) -/
+def reach (w : World) (names : List Name) (sched : List Nat) : LState := run w (initState names) sched
+
+/-- an entry of the cache, once present, never changes -/
+def map_monotone_statement : Prop :=
+  ∀ (w : World) (s : LState) (τ : Nat) (n : Name) (id : Ident),
+    s.map.lookup n = some id → (step w s τ).map.lookup n = some id
+
+/-- all threads that load the same name obtain the same zone and the same success flag,
+whichever thread's load finishes first -/
+def same_name_same_identity_statement : Prop :=
+  ∀ (w : World) (names : List Name) (sched : List Nat) (i j : Nat) (ti tj : Thread) (ok1 ok2 : Bool) (id1 id2 : Ident),
+    (reach w names sched).threads[i]? = some ti → (reach w names sched).threads[j]? = some tj →
+    ti.name = tj.name → ti.pc = .done ok1 id1 → tj.pc = .done ok2 id2 → id1 = id2 ∧ ok1 = ok2
+
+/-- every value returned under any interleaving is what a single-threaded execution returns:
+the success flag is the sequential one, and the zone is UTC exactly for UTC names and failures -/
+def result_is_sequential_statement : Prop :=
+  ∀ (w : World) (names : List Name) (sched : List Nat) (i : Nat) (t : Thread) (ok : Bool) (id : Ident),
+    (reach w names sched).threads[i]? = some t → t.pc = .done ok id →
+    ok = seqOk w t.name ∧ (id = .utc ↔ (isUtcName t.name = true ∨ seqOk w t.name = false)) ∧ (ok = true ↔ id ≠ .utc ∨ isUtcName t.name = true)
+
+/-- different names never share a (non-UTC) zone object -/
+def distinct_names_distinct_zones_statement : Prop :=
+  ∀ (w : World) (names : List Name) (sched : List Nat) (i j : Nat) (ti tj : Thread) (ok1 ok2 : Bool) (g1 g2 : Nat),
+    (reach w names sched).threads[i]? = some ti → (reach w names sched).threads[j]? = some tj →
+    ti.name ≠ tj.name → ti.pc = .done ok1 (.impl g1) → tj.pc = .done ok2 (.impl g2) → g1 ≠ g2
+
+/-- no thread can be blocked by another: four of its own steps always finish a load -/
+def progress_statement : Prop :=
+  ∀ (w : World) (s : LState) (τ : Nat) (t : Thread), s.threads[τ]? = some t →
+    ∃ ok id, ((run w s [τ, τ, τ, τ]).threads[τ]?.map (·.pc)) = some (.done ok id)
+
 end Cctz.C13
